@@ -139,12 +139,11 @@ Definition w_ratio_radix := (Pcfg 2 true CDown false 80 true true true, ORat 3 4
 Definition w_array_radix := (Pcfg 10 true CDown false 80 true true true, OArr 2 [OList [fx 1; fx 2]; OList [fx 3; fx 4]]).
 (* the symbol named t is printed t (the suite pins this: the symbol t doubles as the name of the type t) *)
 Definition w_symbol_t := (cfg_flat, OSym [116]).
-(* #\( and the character with code 0 *)
+(* #\( *)
 Definition w_char_paren := (cfg_flat, OChr 40).
-Definition w_char_nul := (cfg_flat, OChr 0).
 
 Definition refutation_witnesses : list (pcfg * obj) :=
-  [w_string_quote; w_single_float; w_integral_double; w_ratio_radix; w_array_radix; w_symbol_t; w_char_paren; w_char_nul].
+  [w_string_quote; w_single_float; w_integral_double; w_ratio_radix; w_array_radix; w_symbol_t; w_char_paren].
 Theorem outside_guard_refuted : forallb (fun w => refuted (fst w) (snd w)) refutation_witnesses = true.
 Proof. vm_compute. reflexivity. Qed.
 (* what the model makes of some of them *)
@@ -161,6 +160,10 @@ Proof. vm_compute. reflexivity. Qed.
 (* repaired (C03-10): the symbol named NIL is printed |nil| *)
 Example nil_symbol_barred : model_text cfg_flat (OSym [78; 73; 76]) = Some [124; 110; 105; 108; 124].
 Proof. vm_compute. reflexivity. Qed.
+(* repaired (C03-12): the NUL character is printed #\Null *)
+Example nul_character_named : model_text cfg_flat (OChr 0) = Some [35; 92; 78; 117; 108; 108] /\
+  model_read (model_text cfg_flat (OChr 0)) = Some [OChr 0].
+Proof. vm_compute. split; reflexivity. Qed.
 Example integral_double_reads_fixnum : model_read (model_text (fst w_integral_double) (snd w_integral_double)) = Some [OInt false 1].
 Proof. vm_compute. reflexivity. Qed.
 Example array_radix_text : model_text (fst w_array_radix) (snd w_array_radix) =
